@@ -23,7 +23,9 @@ func verifFeatures() []*Feature {
 		v := v
 		scores = append(scores, &v)
 	}
-	attrs := []Attributes{nil, {{"tag", "value"}}, {{"a", "\"free text\""}, {"b_2", "1 2 3"}}, {{"flag", ""}}}
+	// tags over the whole tag alphabet, with the first and last letter and digit of each range
+	attrs := []Attributes{nil, {{"tag", "value"}}, {{"a", "\"free text\""}, {"b_2", "1 2 3"}}, {{"flag", ""}},
+		{{"azAZ09_", "x"}, {"z", "\"z\""}}, {{"Z9", "0"}, {"size", "12"}, {"A0a", "v"}}}
 	var out []*Feature
 	i := 0
 	for _, start := range []int{0, 1, 7, 1 << 40} {
@@ -33,8 +35,8 @@ func verifFeatures() []*Feature {
 				f := &Feature{
 					SeqName: []string{"seq", "s q", "chr#1"}[i%3], Source: []string{"src", "a b"}[i%2], Feature: []string{"exon", "x y"}[i%2],
 					FeatStart: start, FeatEnd: start + length, FeatScore: sc,
-					FeatStrand: []seq.Strand{seq.Plus, seq.Minus, seq.None}[i%3],
-					FeatFrame:  []Frame{NoFrame, Frame0, Frame1, Frame2}[i%4],
+					FeatStrand:     []seq.Strand{seq.Plus, seq.Minus, seq.None}[i%3],
+					FeatFrame:      []Frame{NoFrame, Frame0, Frame1, Frame2}[i%4],
 					FeatAttributes: attrs[i%len(attrs)],
 				}
 				if i%5 == 0 {
